@@ -60,12 +60,12 @@ Proof. exact refuted_inject_reparse_proof. Qed.
 Print Assumptions c06_accept_iff_coercible_refuted_inject_defaults_string_reparsed.
 
 Theorem c06_accept_iff_coercible_refuted_remap_name_collision_upload :
-  exists S vds vars, accepts go_quirks S no_reparse vds vars = true /\ coercible_all std S vds vars = false.
+  exists S vds vars, accepts old_quirks S no_reparse vds vars = true /\ coercible_all std S vds vars = false.
 Proof. exact refuted_remap_collision_proof. Qed.
 Print Assumptions c06_accept_iff_coercible_refuted_remap_name_collision_upload.
 
 (* ---- accept_iff_coercible_partial: the engine pipeline of the code as it is, for every schema, operation and
-        variables JSON.  Int / ID are weakened to "JSON number" ([weak]) and the two remaining Upload causes are
+        variables JSON.  Int / ID are weakened to "JSON number" ([weak]) and the remaining Upload cause is
         excluded by [no_upload_ref]; everything else is well-formedness (unique names / keys, valid defaults) and
         the model's own recursion budget.  No condition on the shape of the values is left. ---- *)
 Theorem c06_accept_iff_coercible_partial : forall S reparse vds ms,
